@@ -379,8 +379,10 @@ def run_check(mod, prop, tier, seed, replay=None):
     if unknown:
         violations = len(unknown)
         path = os.path.join(ROOT, 'replays', '%s-%d.json' % (prop, seed))
-        json.dump({'property': prop, 'kind': 'failing-input', 'failure': unknown[0], 'more': unknown[1:20],
-                   'broken_obligations': [o['name'] for o in broken]}, open(path, 'w'), indent=1, default=str)
+        json.dump({'property': prop, 'kind': 'failing-input', 'tier': tier, 'seed': seed, 'failure': unknown[0], 'more': unknown[1:20],
+                   'broken_obligations': [o['name'] for o in broken],
+                   'how_to_replay': './check %s --replay %s   (re-runs the suites with the recorded seed and tier against /repo as it is now and looks for this failing input again)' % (prop, path)},
+                  open(path, 'w'), indent=1, default=str)
         print('VIOLATION property=%s replay=%s' % (prop, path))
         print('  first failing input: ' + json.dumps(unknown[0], default=str)[:600])
         rc = 1
@@ -392,7 +394,7 @@ def run_check(mod, prop, tier, seed, replay=None):
             if s.divergences:
                 first_div = {'suite': s.name, **s.divergences[0]}
                 break
-        json.dump({'property': prop, 'kind': 'no-failing-input-found',
+        json.dump({'property': prop, 'kind': 'no-failing-input-found', 'tier': tier, 'seed': seed,
                    'broken': [{'name': o['name'], 'kind': o['kind'], 'detail': o['detail']} for o in broken],
                    'first_divergence': first_div}, open(path, 'w'), indent=1, default=str)
         print('VIOLATION property=%s replay=%s no-failing-input-found' % (prop, path))
@@ -447,3 +449,50 @@ def write_evidence(prop, tier, seed, mod, obligations, suites, wall, violations,
     os.makedirs(os.path.join(ROOT, 'evidence'), exist_ok=True)
     with open(os.path.join(ROOT, 'evidence', prop + '.json'), 'w') as f:
         json.dump(ev, f, indent=1, default=str)
+
+
+def replay(mod, prop, path):
+    """re-executes a recorded violation against /repo as it is now: the suites are deterministic functions of (property, seed, tier), so the
+    recorded failing input is regenerated and evaluated again on the real code.  Exit 1 (and the VIOLATION line) if it fails again, 0 if it no
+    longer does, 2 if the replay file cannot be used."""
+    try:
+        rec = json.load(open(path))
+    except Exception as e:  # noqa
+        print('cannot read replay file %s: %s' % (path, e))
+        return 2
+    print(json.dumps(rec, indent=1)[:4000])
+    if rec.get('kind') != 'failing-input':
+        print('this replay names broken proof obligations / ties, not an input: run ./check %s to re-evaluate them' % prop)
+        return run_check(mod, prop, rec.get('tier', 'quick'), int(rec.get('seed', 0)))
+    if not os.path.exists(DRV):
+        with BuildLock():
+            lake_build(['udsdrv'])
+    ctx = Ctx(prop, rec.get('tier', 'quick'), int(rec.get('seed', 0)))
+    if hasattr(mod, 'generate'):
+        pass            # generated Lean tables are not needed to evaluate the property on the implementation
+    want = rec['failure']
+    keys = [k for k in ('site', 'input', 'call', 'class') if k in want]
+    again = []
+    for fn in mod.SUITES:
+        try:
+            s = fn(ctx)
+        except Infra as e:
+            print('INFRASTRUCTURE FAILURE: %s' % e)
+            return 2
+        except Exception as e:  # noqa
+            import traceback
+            print('suite %s raised %s' % (getattr(fn, '__name__', '?'), ''.join(traceback.format_exception(type(e), e, e.__traceback__))[-1500:]))
+            if want.get('class') == 'unforeseen exception':
+                again.append({'site': want.get('site'), 'observed': '%s: %s' % (type(e).__name__, e)})
+            continue
+        if s.name != want.get('suite'):
+            continue
+        for f in s.spec_failures:
+            if all(str(f.get(k)) == str(want.get(k)) for k in keys):
+                again.append(f)
+    if again:
+        print('REPRODUCED on the current tree: ' + json.dumps(again[0], default=str)[:800])
+        print('VIOLATION property=%s replay=%s' % (prop, path))
+        return 1
+    print('NOT REPRODUCED: the recorded input no longer fails on the current tree (suite %s, seed %s, tier %s)' % (want.get('suite'), rec.get('seed'), rec.get('tier')))
+    return 0
